@@ -43,7 +43,7 @@ COMMANDS = {
     },
     "DCMotor": {
         "set_speed": ["d.set_speed(0.5)", "d.set_speed(-0.25)", "d.set_speed(1.7)", "d.set_speed(-2.5)", "d.set_speed(0)", "d.set_speed(value=0.75)", "d.set_speed(1)"],
-        "backward-stop-coast-invert": ["d.backward()", "d.backward(0.3)", "d.stop()", "d.set_speed(0.6)", "d.coast()", "d.invert()", "d.set_speed(0.4)", "d.invert()", "d.backward(speed=0.9)"],
+        "backward-stop-coast-invert": ["d.backward()", "d.backward(0.3)", "d.stop()", "d.set_speed(0.6)", "d.coast()", "d.invert()", "d.set_speed(0.4)", "d.invert()", "d.backward(speed=0.9)", "d.backward(-0.5)", "d.invert()", "d.backward(-0.25)"],
         "ramp-to-current-speed": ["d.set_speed(0.5)", "d.ramp(0.5, 400)", "d.stop()", "d.ramp(0.0, 100)", "d.ramp(0, 60)", "d.set_speed(-1)", "d.ramp(-1.0, 200)"],
         "ramp": ["d.ramp(1.0, 200)", "d.ramp(-0.5, 100)", "d.ramp(target_speed=0.25, duration_ms=60)", "d.set_speed(1.7)", "d.ramp(0.0, 100)"],
         "run_for": ["d.run_for(100, 0.5)", "d.run_for(50, -1.0)", "d.run_for(duration_ms=30, speed=0.2)"],
@@ -77,6 +77,7 @@ LCD_COMMANDS = {
               "d.write(0, 0, 'R', align='RIGHT')", "d.write(10, 0, 'overflowing text')", "d.write(0, 1, 'clr', clear_row=True)", "d.write(5, 0, 'keep', clear_row=False)", "d.write(0, 0, '')"],
     "line": ["d.line(0, 'top line')", "d.line(1, 'right', align='right')", "d.line(0, 'ctr', align='center')", "d.line(1, 'Mixed', align='Right')", "d.line(0, 'a much longer line than the display is wide')",
              "d.line(1, '')", "d.line(0, 'kw', align='left')"],
+    "message-keeps-other-rows": ["d.line(0, 'r0')", "d.line(1, 'r1')", "d.message('top', 'bottom')", "d.message('only')", "d.message(None, 'b2')", "d.message('t3', 'b3', clear_rows=True)"],
     "message": ["d.message('top', 'bottom')", "d.message('only top')", "d.message(None, 'only bottom')", "d.message(bottom='kw bottom')", "d.message('a', 'b', top_align='center', bottom_align='right')",
                 "d.message('T', 'B', top_align='Center', bottom_align='RIGHT')", "d.message(None, 'x', bottom_align='center', clear_rows=False)", "d.message('keep', None, clear_rows=False)",
                 "d.message(top='t2', bottom='b2', clear_rows=True)"],
@@ -92,6 +93,8 @@ def lcd_scripts():
     for dname, decl in LCD_DECLS.items():
         for gname, cmds in LCD_COMMANDS.items():
             lines = [decl]
+            if dname == "20x4":
+                lines += ["d.line(2, 'keep row two')", "d.line(3, 'keep row three')"]
             for k, c in enumerate(cmds):
                 lines.append(c)
                 lines.append(f"mon.write('-- {k}')")
